@@ -15,6 +15,7 @@ import (
 	"strconv"
 	"strings"
 	"sync"
+	"time"
 
 	log "github.com/sirupsen/logrus"
 
@@ -33,6 +34,8 @@ import (
 
 // ---------------------------------------------------------------------------
 // database under test + reference data
+
+const wdAssign = 60 * time.Second
 
 type db struct {
 	raw    [][]byte
@@ -735,6 +738,7 @@ func init() {
 			{Name: "identify", N: core.Const(100, 1800), Run: runIdentify, Race: true, NRace: core.Const(6, 24)},
 			{Name: "closest2", N: core.Const(150, 3000), Run: runClosestWith(obitag2.FindClosests, true)},
 			{Name: "closest", N: core.Const(300, 6000), Run: runClosestWith(obitag.FindClosests, false)},
+			{Name: "assign", N: core.Const(60, 600), Run: runAssign},
 		},
 		MinNontrivial: 200,
 		RaceFiles:     anchored,
